@@ -106,7 +106,29 @@ impl Bound {
 
     pub fn new_opt(name: &str, spec: &NetSpec, k: u16, check_witness: bool) -> Result<Bound, BindError> {
         let aeon = spec.to_aeon();
-        let bn = BooleanNetwork::try_from(aeon.as_str()).map_err(BindError::Rejected)?;
+        let bn = if spec.sorted_names() {
+            BooleanNetwork::try_from(aeon.as_str()).map_err(BindError::Rejected)?
+        } else {
+            // variables declared in a non-lexicographic order: the network is built programmatically
+            // (RegulatoryGraph::new keeps the given order; every parser of lib-param-bn would sort the names)
+            let mut rg = biodivine_lib_param_bn::RegulatoryGraph::new(spec.vars.clone());
+            for line in aeon.lines().filter(|l| !l.starts_with('$') && !l.trim().is_empty()) {
+                rg.add_string_regulation(line).map_err(BindError::Rejected)?;
+            }
+            let mut bn = BooleanNetwork::new(rg);
+            let mut symbols = std::collections::BTreeMap::new();
+            for f in spec.funcs.iter().flatten() {
+                f.symbols(&mut symbols);
+            }
+            for (name, arity) in &symbols {
+                bn.add_parameter(name, *arity as u32).map_err(BindError::Rejected)?;
+            }
+            for line in aeon.lines().filter(|l| l.starts_with('$')) {
+                let (v, e) = line[1..].split_once(':').ok_or_else(|| BindError::Mismatch("update line".into()))?;
+                bn.add_string_update_function(v.trim(), e.trim()).map_err(BindError::Rejected)?;
+            }
+            bn
+        };
         let graph = get_extended_symbolic_graph(&bn, k).map_err(BindError::Rejected)?;
         let n = spec.n();
         if graph.num_vars() != n {
